@@ -659,6 +659,8 @@ package jet
 //@   props C07 C08 C13 C10 C12 C09
 //@   check [a-block-hands-up-what-its-body-returned] {C09} returnValue == lastret("(*Runtime).executeList", 0)
 //@   requires RtOK(st) && block != nil && WF(iface(block, "*BlockNode")) && blockParam != nil && WFParams(blockParam) && yieldParam != nil && (len(yieldParam.List) == 0 || WFParams(yieldParam)) && (expression != nil ==> WF(expression)) && (content != nil ==> WFL(content))
+//@   requires [a-yield-gives-every-argument-a-value] {C12} yieldParam != blockParam ==> forall(k, 0, len(yieldParam.List), yieldParam.List[k].Expression != nil)
+//@   callsite (*NodeBase).errorf 0 requires [only-a-definition-site-reports-a-parameter-without-default-at-the-block] {C12} caller.yieldParam == caller.blockParam
 //@   modifies @Interp
 //@   loop 0 entry [every-yield-argument-is-evaluated] {C08} i == 0
 //@   loop 1 entry [every-yield-argument-is-bound] {C08} i == 0
@@ -678,6 +680,13 @@ package jet
 //@   ensures [yield-balanced] SameS(st)
 //@   anypanic
 //@   exsures [runtime-valid-on-panic] RtX(st)
+
+//@ func (*YieldNode).checkArguments
+//@   props C12 C08
+//@   requires node != nil && node.Parameters != nil
+//@   loop 0 invariant 0 <= i && forall(k, 0, i, node.Parameters.List[k].Expression != nil)
+//@   ensures [every-argument-of-the-yield-has-a-value] {C12} forall(k, 0, len(node.Parameters.List), node.Parameters.List[k].Expression != nil)
+//@   callsite (*NodeBase).errorf count 1 {C12}
 
 //@ func (*Runtime).executeList
 //@   props C07 C13 C10 C09 C05 C12 C08
